@@ -832,7 +832,7 @@ static void vsx_explore(const struct vsx_scenario *sc, int bound) {
             v_viol(sig, "%s  [cost %d, %d points]", r->msg, job.cost, r->npoints);
             viol++;
         }
-        if (r->outcome[0] && vsx_set_add(&vsx_outcomes, vsx_strhash(r->outcome))) v_out("INFO outcome[%s] %s", sc->name, r->outcome);
+        if (r->outcome[0] && vsx_set_add(&vsx_outcomes, vsx_strhash(r->outcome) ^ vsx_strhash(sc->name) * 31)) v_out("INFO outcome[%s] %s", sc->name, r->outcome);
         if (!sample_tok[0] || (job.cost == bound && sample_tok[0] != '!')) {
             snprintf(sample_tok, sizeof(sample_tok), "%s%.600s", job.cost == bound ? "!" : "", tok);
         }
